@@ -429,7 +429,7 @@ class PlanEngine(Engine):
                         else:
                             m = next(m for m in scenario['proj']['mods'] if m['name'] == name)
                             for pn in m['procs'] + (m['iface']['procs'] if m.get('iface') else []):
-                                file_of[f'{name}#{pn}'] = relocated[f['path']]
+                                file_of[BG.item_name(scenario['proj'], pn)] = relocated[f['path']]
                 exact_repl = {('src', file_of[n]) for n, k in ref['nodes'].items()
                               if k == 'proc' and n in file_of and BG.item_config(cfg, n).get('replicate')
                               and ref['ignored'].get(n) is False}
